@@ -1069,8 +1069,6 @@ def random_sdl(rng: Rng) -> str:
 E2E_CORPUS = [
     ({"type": "object", "properties": {"str": {"type": "string"}}}, "pydantic_v2.BaseModel", {}, None, "jsonschema"),
     ({"type": "object", "properties": {"int": {"type": "string"}, "n": {"type": "integer"}}}, "dataclasses.dataclass", {}, None, "jsonschema"),
-    ({"type": "object", "properties": {"a": {"type": "array", "uniqueItems": True, "items": {"type": "string"}}}}, "pydantic_v2.BaseModel",
-     {"use_generic_container_types": True, "use_standard_collections": True, "use_unique_items_as_set": True}, None, "jsonschema"),
     ({"type": "object", "required": ["a"], "properties": {"a": {"type": ["array", "null"], "items": {"type": "string"}}}}, "pydantic_v2.BaseModel", {}, None, "jsonschema"),
     ({"type": "object", "required": ["a"], "properties": {"a": {"type": ["array", "null"], "items": {"type": "string"}}}}, "typing.TypedDict", {}, None, "jsonschema"),
     ({"type": "object", "properties": {"date": {"type": "string", "format": "date"}, "d2": {"type": "array", "items": {"type": "string", "format": "date"}}}}, "pydantic.BaseModel", {}, None, "jsonschema"),
@@ -1090,6 +1088,16 @@ E2E_CORPUS = [
     *[({"title": "Model", "type": "object", "properties": {"date": {"type": "string", "format": "date"}, "ds": {"type": "array", "items": {"type": "string", "format": "date"}}}}, k, {}, None,
        "jsonschema", {"date": "2020-01-02", "ds": ["2020-01-03"]}) for k in e2e.MODEL_KINDS],
     *[("type A { B: B  String: String  items: [B] }\ntype B { x: Int  A: [A!] }\n", k, {}, None, "graphql") for k in e2e.MODEL_KINDS],
+    # former witness of C02-F2 (repaired: the generic + standard-collections branch of DataType.imports yields typing.FrozenSet, the name type_hint
+    # writes): it must hold in every kind (msgspec statically), with and without the union operator, and next to a list and a dict member
+    *[({"type": "object", "properties": {"a": {"type": "array", "uniqueItems": True, "items": {"type": "string"}}}}, k,
+       {"use_generic_container_types": True, "use_standard_collections": True, "use_unique_items_as_set": True, **o}, None, "jsonschema", {"a": ["x", "y"]})
+      for k in e2e.MODEL_KINDS for o in ({}, {"use_union_operator": True})],
+    *[({"title": "Model", "type": "object", "required": ["s"], "properties": {
+        "s": {"type": "array", "uniqueItems": True, "items": {"type": "integer"}}, "l": {"type": "array", "items": {"type": "string"}},
+        "d": {"type": "object", "additionalProperties": {"type": "integer"}}}}, k,
+       {"use_generic_container_types": True, "use_standard_collections": True, "use_unique_items_as_set": True}, None, "jsonschema",
+       {"s": [1, 2], "l": ["x"], "d": {"k": 3}}) for k in e2e.MODEL_KINDS],
 ]
 
 
